@@ -59,6 +59,18 @@ struct coap_cache_entry_t {
 void coap_expire_cache_entries(coap_context_t *context);
 
 /**
+ * Remove a cache-entry from the hash list and free off all the appropriate
+ * contents apart from app_data.
+ *
+ * Note: This function must be called in the locked state.
+ *
+ * @param context     The context to use.
+ * @param cache_entry The cache-entry to remove.
+ */
+void coap_delete_cache_entry_lkd(coap_context_t *context,
+                                 coap_cache_entry_t *cache_entry);
+
+/**
  * Searches for a cache-entry identified by @p cache_key. This
  * function returns the corresponding cache-entry or @c NULL
  * if not found.
